@@ -459,6 +459,32 @@ func c19Scenario(spec *c19Spec) *Scenario {
 	}
 }
 
+// t3Law (RFC 4960 6.3.2 R1-R3), evaluated at quiescent points: while an endpoint that can still
+// send has unacknowledged, non-abandoned DATA outstanding, its T3-rtx timer is running.
+func t3Law(m *Sim) {
+	for i, a := range m.As {
+		if a == nil {
+			continue
+		}
+		switch a.getState() {
+		case established, shutdownPending, shutdownReceived:
+		default:
+			continue
+		}
+		q := a.inflightQueue
+		var first *chunkPayloadData
+		for k := 0; k < q.chunks.Len(); k++ {
+			if c := q.chunks.At(k); !c.acked && !c.abandoned() {
+				first = c
+				break
+			}
+		}
+		if first != nil && a.t3RTX.state != rtxTimerStarted {
+			m.viol = append(m.viol, Violation{Oracle: "timer.t3-idle", Msg: fmt.Sprintf("endpoint %d at %v: TSN %d is outstanding (sent %d times) but T3-rtx is not running", i, m.S.Now(), first.tsn, first.nSent)})
+		}
+	}
+}
+
 // ackDelayOracle / karnOracle run over fault-enumerated transfer executions.
 func ackDelayOracle(m *Sim, x *Exec) {
 	type rstate struct {
@@ -475,6 +501,10 @@ func ackDelayOracle(m *Sim, x *Exec) {
 	}
 	var pending [2][]pend
 	shut := false
+	// the window each endpoint last advertised: a receiver with (nearly) no window may drop a
+	// new chunk; the oracle then cannot know what the receiver holds, so such a chunk neither
+	// calls for an immediate SACK nor makes a later copy a "duplicate"
+	lastArwnd := [2]uint32{1 << 30, 1 << 30}
 	for _, ev := range x.Events {
 		if ev.Pkt.dec == nil {
 			continue
@@ -495,6 +525,9 @@ func ackDelayOracle(m *Sim, x *Exec) {
 					shut = true
 				case wDATA, wIDATA:
 					hasData = true
+					if !r.have[c.TSN] && sna32lt(r.cum, c.TSN) && lastArwnd[y] < uint32(len(c.Data)) {
+						continue // may be dropped for lack of window
+					}
 					if r.have[c.TSN] || sna32lte(c.TSN, r.cum) {
 						immediate = true // duplicate
 					} else if c.TSN != r.cum+1 {
@@ -528,6 +561,17 @@ func ackDelayOracle(m *Sim, x *Exec) {
 			for _, c := range ev.Pkt.dec.Chunks {
 				if c.Typ == wSACK || c.Typ == wSHUTDOWN {
 					isSack = true
+				}
+				if c.Typ == wSACK || c.Typ == wINIT || c.Typ == wINITACK {
+					lastArwnd[y] = c.ARwnd
+				}
+				if c.Typ == wSACK && rs[y].init && sna32lt(rs[y].cum, c.CumAck) {
+					// the receiver says it holds everything up to here (chunks the oracle had
+					// to treat as possibly dropped were accepted after all)
+					rs[y].cum = c.CumAck
+					for rs[y].have[rs[y].cum+1] {
+						rs[y].cum++
+					}
 				}
 				if c.Typ == wSHUTDOWN || c.Typ == wSHUTDOWNACK || c.Typ == wABORT {
 					shut = true
@@ -715,6 +759,9 @@ func c19EndToEnd(j *Job) {
 	cases = append(cases, famW1(modes, []uint32{0}, 1)...)
 	cases = append(cases, famW1(modes[:1], []uint32{6}, 2)...)
 	cases = append(cases, famW5(modes[:2], 1)...)
+	cases = append(cases, famZ1(modes[:1], 1)...)
+	cases = append(cases, famZ2(modes[:1], 0)...)
+	cases = append(cases, famKS(modes[:1], 2, true, []time.Duration{0}, 3)...)
 	// two consecutive chunks lost, the retransmission of the first lost again (gap-acked retransmission)
 	for _, mode := range modes {
 		mtu := uint32(100)
@@ -722,6 +769,25 @@ func c19EndToEnd(j *Job) {
 			Streams: []streamSpec{{SID: 1, From: 0, Msgs: []msgSpec{{Size: 60, PPI: 53}, {Size: 61, PPI: 53}, {Size: 62, PPI: 53}, {Size: 63, PPI: 53}}}},
 			Kill:    []killRule{{SID: 1, Msg: 1, Frag: -1, N: 2}, {SID: 1, Msg: 2, Frag: -1, N: 1}}, Faults: allFaults}
 		cases = append(cases, xferCase{Name: "K/" + mode.Name + "/rtx-gapacked", K: 1, Spec: spec})
+	}
+	// T3 law while the peer's data is acknowledged by SHUTDOWN chunks only
+	for _, mode := range modes {
+		P := int(maxPayloadSizeForMTU(100, !mode.A.NoInterleave))
+		for _, offs := range [][]uint32{{5, 6}, {4}} {
+			sp := &shutSpec{A: withBase(mode.A, 100, 0xFFFFFFFC, 4000), B: withBase(mode.B, 100, 0xFFFFFFF7, 4000),
+				BSizes: []int{20, 2*P + 2, 21, 22, 23, 24, 25}, KillBOff: offs, KillSacks: 100000}
+			sc := shutScenario(sp)
+			setup := sc.Setup
+			sc.Setup = func(m *Sim) {
+				setup(m)
+				m.W.onQuiescent = m.invariantsAll
+				m.quiescentHooks = append(m.quiescentHooks, func() { t3Law(m) })
+			}
+			j.Explore(fmt.Sprintf("T3/%s/shutdown-partial-ack/off%v", mode.Name, offs), sc, Budget{K: 0}, nil)
+			if j.capped() {
+				return
+			}
+		}
 	}
 	for _, c := range cases {
 		spec := c.Spec
@@ -747,6 +813,7 @@ func c19EndToEnd(j *Job) {
 					}
 				}
 				samples = append(samples, s)
+				t3Law(m)
 			})
 		}
 		j.Explore(c.Name, sc, Budget{K: c.K}, nil)
